@@ -1207,7 +1207,7 @@ def run(ctx):
     floors = {"local": len(local), "recorded": len(recorded), "exact": len(exact), "numba-source": len(nb_src),
               "numba-jit": len(nb_jit), "recorded-jit": len(rec_jit), "malformed": len(malformed), "numba-statistics": len(sjobs)}
     short = {k: (ctx.legs.get(k, 0), n) for k, n in floors.items() if ctx.legs.get(k, 0) < n or n == 0}
-    if short or ctx.monitor_evals == 0 or ctx.impl_traces == 0:
+    if not ctx.monitor_failures and (short or ctx.monitor_evals == 0 or ctx.impl_traces == 0):
         from harness.common.lean import BrokenCheck
         raise BrokenCheck(f"C13 coverage floor not met: legs (counted, generated) {short}, monitor evaluations "
                           f"{ctx.monitor_evals}, model comparisons {ctx.impl_traces}")
